@@ -11,8 +11,11 @@ Proof.
   all: a_facts Hi a; b_facts Hi (ab (A s a)); b_facts Hi (aw (A s a)).
   all: rmfix.
   all: repeat match goal with |- _ /\ _ => split end; auto; try lia; nd; try mem.
-  - intro I. apply H10 in I. lia.
-  - intros b I. rewrite in_app_iff in I. cbn in I. destruct I as [I|[<-|[]]]; [apply H10 in I|]; lia.
-  - now inversion H8.
-  - intros b I. apply H10. now right.
+  all: try match goal with Q : forall b, In b (q _) -> (_ <= b < _)%nat |- ~ In _ _ => let I := fresh in intro I; apply Q in I; lia end.
+  all: try match goal with Q : forall b, In b (q _) -> (_ <= b < _)%nat |- forall b, In b (_ ++ _) -> _ =>
+         let b := fresh "b" in let I := fresh "I" in
+         intros b I; rewrite in_app_iff in I; cbn in I; destruct I as [I|[<-|[]]]; [apply Q in I|]; lia end.
+  all: try match goal with N : NoDup (_ :: ?l) |- NoDup ?l => now inversion N end.
+  all: try match goal with Q : forall b, In b (_ :: _) -> (_ <= b < _)%nat |- forall b, In b _ -> _ =>
+         let b := fresh "b" in let I := fresh "I" in intros b I; apply Q; now right end.
 Qed.
